@@ -80,6 +80,10 @@ def run(ctx):
                 ctx.nontriv(json.dumps(c["ops"][:-14]))
     L.random_histories(ctx, binp, 240 if ctx.quick else 6000,
                        lambda o: o in ("predict", "fill_tags", "set_bnd", "filter", "up_raw"))
+    # one sentence object re-used across texts of recurring lengths with a tag-predicting, score-storing predictor:
+    # every recorded result must be the reference result of its own text (stale per-position state must not leak)
+    from props import C01
+    C01.random_traces(ctx, binp, kind="tags", n_models=400 if ctx.quick else 6000)
     schedules_design(ctx)
     threads_trace(ctx)
 
